@@ -56,11 +56,12 @@ std::string dimRec(const nix::Dimension &dim) {
     return "X ?";
 }
 
-// the referenced arrays by id: the model derives the units of their dimensions itself (valid::getDimensionsUnits)
+// the referenced arrays by id AND name (raw edits can blank the ids of several arrays of a block; the pair stays unambiguous):
+// the model derives the units of their dimensions itself (valid::getDimensionsUnits)
 template<typename T> std::string refsTok(const T &t) {
     return got([&]() {
         std::vector<std::string> l;
-        for (auto &ref : t.references()) l.push_back(hexStr(ref.id()));
+        for (auto &ref : t.references()) l.push_back(hexStr(ref.id() + "\x1f" + ref.name()));
         return listTok(l);
     });
 }
